@@ -96,7 +96,9 @@ impl Drop for Output {
         let _ = match self {
             Output::StdOut => Ok(()),
             Output::Named(target) => std::fs::remove_file(target),
-            Output::InPlace(target) => std::fs::remove_file(target),
+            // This is the input file of the transform. If it is a temporary copy,
+            // `Input` removes it; with `--no-copy` it is the original file and must stay.
+            Output::InPlace(_) => Ok(()),
         };
     }
 }
